@@ -41,6 +41,16 @@ def gen_history(rng, n):
             for s in c['sources']:
                 s['rows'] = s['rows'][:max(0, len(s['rows']) - 2)] if rng.random() < 0.7 else []
             steps[-1]['case'] = c
+    if n >= 2 and rng.random() < 0.3:
+        # the last run comes back to the target of the first with the same mapping, all of whose triples maps are now declared non-asserted:
+        # it has no statement of its own, and nothing of the earlier run may survive
+        c = json.loads(json.dumps(steps[0]['case']))
+        for t in c['doc']:
+            t['nonasserted'] = True
+        steps[-1] = {'case': c, 'out': steps[0]['out']}
+    for st in steps:
+        if rng.random() < 0.15:
+            st['options'] = rng.choice([['output_kafka_topic=statements'], ['output_kafka_topic=t', 'logging_file=run.log'], ['logging_file=run.log']])   # options that do not select another output
     return steps
 
 
@@ -57,6 +67,7 @@ def step_config(step, wd, k):
         extra.append('output_file=%s' % (val if kind == 'file' else 'ignored-name'))
     if kind in ('dir', 'both'):
         extra.append('output_dir=%s' % val)
+    extra += step.get('options', [])
     return cfg.replace('[CONFIGURATION]\n', '[CONFIGURATION]\n' + '\n'.join(extra) + '\n')
 
 
